@@ -912,9 +912,14 @@ class C17(Check):
             for oi, op in enumerate(case["ops"]):
                 # plant pre-existing targets
                 prng = random.Random(case["seed"] * 1000 + oi)
+                dir_times = {}
                 for rel, how in sorted(op.get("pre", {}).items()):
                     if os.path.dirname(rel):
                         os.makedirs(os.path.dirname(rel), exist_ok=True)
+                    dname = os.path.dirname(rel) or "."
+                    if dname not in dir_times:
+                        st_d = os.stat(dname)
+                        dir_times[dname] = (st_d.st_atime_ns, st_d.st_mtime_ns)
                     if how == "keep" and os.path.exists(rel):
                         continue
                     blob = bytes(prng.getrandbits(8)
@@ -947,6 +952,15 @@ class C17(Check):
                         # a write-protected file (mode 0444) of the same user
                         os.chmod(rel, 0o444)
                         res.stats["probe.target_is_write_protected"] += 1
+                if dir_times and prng.random() < 0.35:
+                    # the files arrived the way tar / rsync -a / cp -a bring
+                    # them (directory times restored afterwards), or on a file
+                    # system with coarse time stamps: the directory's mtime
+                    # does not tell that its content changed
+                    for dname, times in dir_times.items():
+                        os.utime(dname, ns=times)
+                    res.stats["probe.targets_arrived_with_directory_times_"
+                              "restored"] += 1
                 if "opts" in op and op_config(op):
                     with open("in/opcfg.json", "w") as f:
                         json.dump(op_config(op), f)
